@@ -397,6 +397,113 @@ fn main() {
                 };
                 steps.push(coq::app("mk_step", &[c_commit(input), wres, rres, coq::b(cached), by(&hashed)]));
             }
+            // files, symlinks and a tree: written through the first store, read through the
+            // freshly loaded one
+            let mut objects: Vec<String> = vec![];
+            let mut objects_equal = true;
+            // (a panic inside the Git backend has poisoned the writing store's mutex)
+            if !outs.iter().any(|o| matches!(o, W::Panic)) {
+                use jj_lib::backend::TreeValue;
+                use jj_lib::repo_path::RepoPathComponentBuf;
+                use futures::io::AsyncReadExt as _;
+                let path = repo_path("dir/file");
+                let blobs: [&[u8]; 8] = [b"", b"a", b"\0", b"\r\n\n", b"\xff\xfe", "h\u{e9}".as_bytes(), b"blob 3\0abc", b"tree 0\0"];
+                let mut file_ids = vec![];
+                for _ in 0..rng.range(1, 3) {
+                    let mut content: Vec<u8> = rng.pick(&blobs).to_vec();
+                    if rng.chance(1, 4) {
+                        content.extend(std::iter::repeat_n(*rng.pick(&[0u8, 10, 120]), rng.range(1, 300) as usize));
+                    }
+                    let id = store.write_file(path, &mut &content[..]).block_on().unwrap();
+                    let read = jjv::catch(|| {
+                        let mut r = fresh_store.read_file(path, &id).block_on().ok()?;
+                        let mut out = vec![];
+                        r.read_to_end(&mut out).block_on().ok()?;
+                        Some(out)
+                    })
+                    .flatten();
+                    objects_equal &= read.as_deref() == Some(&content[..]);
+                    objects.push(coq::pair(by(&content), coq::opt(read, |r| by(&r))));
+                    file_ids.push(id);
+                }
+                let targets = ["", "a", "../x", "/abs/\u{e9}", "a\nb", " "];
+                let target = *rng.pick(&targets);
+                let mut symlink_id = None;
+                // the Git backend cannot store an empty blob as a symlink target differently
+                // from a file: ids are content hashes, reads are by id
+                if let Ok(id) = store.write_symlink(path, target).block_on() {
+                    let read = jjv::catch(|| fresh_store.read_symlink(path, &id).block_on().ok()).flatten();
+                    objects_equal &= read.as_deref() == Some(target);
+                    objects.push(coq::pair(by(target.as_bytes()), coq::opt(read, |r| by(r.as_bytes()))));
+                    symlink_id = Some(id);
+                }
+                // a tree with every kind of entry, in sorted order
+                let mut entries: Vec<(RepoPathComponentBuf, TreeValue)> = vec![];
+                let names = ["a", "b.txt", "c d", "\u{e9}", "z"];
+                for (n, name) in names.iter().enumerate() {
+                    if rng.chance(1, 3) {
+                        continue;
+                    }
+                    let value = match (n + rng.usize(4)) % 4 {
+                        0 => TreeValue::File {
+                            id: file_ids[0].clone(),
+                            executable: rng.chance(1, 2),
+                            copy_id: jj_lib::backend::CopyId::placeholder(),
+                        },
+                        1 if symlink_id.is_some() => TreeValue::Symlink(symlink_id.clone().unwrap()),
+                        2 => TreeValue::Tree(env.trees[rng.usize(env.trees.len())].clone()),
+                        _ => TreeValue::File {
+                            id: file_ids[file_ids.len() - 1].clone(),
+                            executable: false,
+                            copy_id: jj_lib::backend::CopyId::placeholder(),
+                        },
+                    };
+                    entries.push((RepoPathComponentBuf::new(*name).unwrap(), value));
+                }
+                entries.sort_by(|a, b| a.0.cmp(&b.0));
+                let ser = |t: &jj_lib::backend::Tree| -> Vec<u8> {
+                    let mut out = vec![];
+                    for e in t.entries() {
+                        out.extend_from_slice(e.name().as_internal_str().as_bytes());
+                        out.push(0);
+                        match e.value() {
+                            TreeValue::File { id, executable, .. } => {
+                                out.push(if *executable { 2 } else { 1 });
+                                out.push(id.as_bytes().len() as u8);
+                                out.extend_from_slice(id.as_bytes());
+                            }
+                            TreeValue::Symlink(id) => {
+                                out.push(3);
+                                out.push(id.as_bytes().len() as u8);
+                                out.extend_from_slice(id.as_bytes());
+                            }
+                            TreeValue::Tree(id) => {
+                                out.push(4);
+                                out.push(id.as_bytes().len() as u8);
+                                out.extend_from_slice(id.as_bytes());
+                            }
+                            TreeValue::GitSubmodule(id) => {
+                                out.push(5);
+                                out.push(id.as_bytes().len() as u8);
+                                out.extend_from_slice(id.as_bytes());
+                            }
+                        }
+                    }
+                    out
+                };
+                let tree = jj_lib::backend::Tree::from_sorted_entries(entries);
+                let dir = repo_path("dir");
+                if let Ok(id) = store.backend().write_tree(dir, &tree).block_on() {
+                    let read = jjv::catch(|| fresh_store.backend().read_tree(dir, &id).block_on().ok()).flatten();
+                    let written = ser(&tree);
+                    let read_ser = read.as_ref().map(|t| ser(t));
+                    objects_equal &= read_ser.as_deref() == Some(&written[..]);
+                    objects.push(coq::pair(by(&written), coq::opt(read_ser, |r| by(&r))));
+                }
+            }
+            if !objects_equal {
+                all_equal = false;
+            }
             let term = coq::app(
                 "mk_case",
                 &[
@@ -404,6 +511,7 @@ fn main() {
                     by(env.root.as_bytes()),
                     coq::list(steps.iter(), |s| s.clone()),
                     coq::b(ids_are_hashes),
+                    coq::list(objects.iter(), |s| s.clone()),
                 ],
             );
             let outcome: Vec<&str> = outs
